@@ -179,7 +179,7 @@ def make_scratch(tag):
     repo = os.path.join(root, "repo")
     shutil.copytree(runner.REPO, repo, ignore=shutil.ignore_patterns("target", ".git"))
     sim = os.path.join(root, "sim")
-    shutil.copytree(runner.SIM_DIR, sim, ignore=shutil.ignore_patterns("target"))
+    shutil.copytree(runner.SIM_DIR, sim, ignore=shutil.ignore_patterns("target", "target-*"))
     ct = open(os.path.join(sim, "Cargo.toml")).read()
     assert 'path = "/repo"' in ct
     open(os.path.join(sim, "Cargo.toml"), "w").write(ct.replace('path = "/repo"', f'path = "{repo}"'))
@@ -187,6 +187,7 @@ def make_scratch(tag):
 
 
 def main(argv, seed):
+    driver.sysroot_note()
     fast = "--fast" in argv
     only = [a for a in argv if not a.startswith("--")]
     root, repo, sim = make_scratch("selftest")
@@ -243,6 +244,7 @@ def trypatch(argv, seed):
     import subprocess
     patch = os.path.abspath(argv[0])
     tier = argv[1] if len(argv) > 1 else "quick"
+    driver.sysroot_note()
     root, repo, sim = make_scratch("trypatch")
     keep = os.path.join(runner.VERIF, "work", "trypatch-replays")
     shutil.rmtree(keep, ignore_errors=True)
